@@ -222,6 +222,33 @@ func registerModels(e *Engine) {
 		return nil
 	}
 
+	// sync.RWMutex: writers use the embedded Mutex w (field 0); readers are
+	// modelled as holders of the same lock (read/read pairs never conflict in
+	// the race analysis; a write under RLock against a read under RLock is not
+	// reported - stated limitation of L4)
+	wOf := func(a Val) Val {
+		p := a.(PtrVal)
+		if p.obj == 0 {
+			abort("panic", "nil RWMutex")
+		}
+		return PtrVal{obj: p.obj, path: append(append([]int(nil), p.path...), 0)}
+	}
+	for _, nm := range []string{"Lock", "RLock"} {
+		ic["(*sync.RWMutex)."+nm] = func(e *Engine, st *State, fr *Frame, in ssa.CallInstruction, a []Val) Val {
+			return ic["(*sync.Mutex).Lock"](e, st, fr, in, []Val{wOf(a[0])})
+		}
+	}
+	for _, nm := range []string{"Unlock", "RUnlock"} {
+		ic["(*sync.RWMutex)."+nm] = func(e *Engine, st *State, fr *Frame, in ssa.CallInstruction, a []Val) Val {
+			return ic["(*sync.Mutex).Unlock"](e, st, fr, in, []Val{wOf(a[0])})
+		}
+	}
+	for _, nm := range []string{"TryLock", "TryRLock"} {
+		ic["(*sync.RWMutex)."+nm] = func(e *Engine, st *State, fr *Frame, in ssa.CallInstruction, a []Val) Val {
+			return ic["(*sync.Mutex).TryLock"](e, st, fr, in, []Val{wOf(a[0])})
+		}
+	}
+
 	// math bit casts
 	ic["math.Float64bits"] = func(e *Engine, st *State, fr *Frame, in ssa.CallInstruction, a []Val) Val {
 		f := a[0].(*Term)
